@@ -82,6 +82,11 @@ func (c *VerifCtx) verifyFunction(ct *Contract) (res *FuncResult) {
 					ex.dry++
 					ex.store(st0, p, LockV{BV(mode, 8)}, TrueT, token.NoPos)
 					ex.dry--
+					if key, ok := mutexKey(p); ok {
+						if rank, ok := c.lockRank[key]; ok {
+							st0.set(rankCounter(rank), BVAdd(st0.get(rankCounter(rank), SBV(64)), BV(1, 64)))
+						}
+					}
 					continue
 				}
 			}
@@ -368,16 +373,174 @@ func (ex *Exec) modTargets(e ast.Expr, info *types.Info, pre *SpecEnv, allowed m
 	}
 }
 
-// ---------------------------------------------------------------- lock discipline hooks
+// ---------------------------------------------------------------- lock discipline (C18)
 
+func structFieldIndex(t types.Type, name string) int {
+	st, ok := types.Unalias(t).Underlying().(*types.Struct)
+	if !ok {
+		return -1
+	}
+	for i := 0; i < st.NumFields(); i++ {
+		if st.Field(i).Name() == name {
+			return i
+		}
+	}
+	return -1
+}
+
+func rootFieldKey(p PtrV) (string, bool) {
+	if p.Kind != PHeap || p.Root == nil || len(p.Path) == 0 {
+		return "", false
+	}
+	nt, ok := types.Unalias(p.Root).(*types.Named)
+	if !ok {
+		return "", false
+	}
+	st, ok := nt.Underlying().(*types.Struct)
+	if !ok || p.Path[0] >= st.NumFields() {
+		return "", false
+	}
+	return nt.Obj().Name() + "." + st.Field(p.Path[0]).Name(), true
+}
+
+// guardedAccess generates the obligations of the declared field disciplines:
+//   guarded_by m  - the access happens with mutex m of the same object held (write: exclusively),
+//                   unless the object was allocated by the function itself (not yet shared)
+//   atomic        - the access goes through sync/atomic
+//   immutable     - written only while the object is not yet shared
+//   owned         - written only by functions whose contract says `exclusive`
 func (ex *Exec) guardedAccess(st *State, p PtrV, write bool, pc *Term, pos token.Pos) {
-	if ex.ctx.disc != nil {
-		ex.ctx.disc(ex, st, p, write, pc, pos)
+	if ex.dry > 0 || !contains(ex.curProps, "C18") {
+		return
+	}
+	key, ok := rootFieldKey(p)
+	if !ok {
+		return
+	}
+	d, ok := ex.ctx.fieldDisc[key]
+	if !ok {
+		return
+	}
+	fresh := Not(Select(Var("H0|alloc", SArr(SRef, SBool)), p.Ref))
+	mode := "read"
+	if write {
+		mode = "write"
+	}
+	saved := ex.clauseProps
+	ex.clauseProps = []string{"C18"}
+	defer func() { ex.clauseProps = saved }()
+	switch d.Kind {
+	case "guarded_by":
+		mi := structFieldIndex(p.Root, d.Arg)
+		if mi < 0 {
+			panic(fmt.Sprintf("field %s is declared guarded_by %s, which is not a field of the same struct", key, d.Arg))
+		}
+		lv, ok := st.heapLoad(p.Root, []int{mi}, p.Ref).(LockV)
+		if !ok {
+			panic(fmt.Sprintf("%s.%s is not a mutex", typeKey(p.Root), d.Arg))
+		}
+		held := Eq(lv.Held, BV(1, 8))
+		if !write {
+			held = Or(held, Eq(lv.Held, BV(2, 8)))
+		}
+		ex.oblige("lock", "guarded "+mode+" "+key, pos, pc, Or(fresh, held), mode+" of "+key+" with "+d.Arg+" held")
+	case "atomic":
+		ex.oblige("lock", "atomic "+mode+" "+key, pos, pc, Or(fresh, Bool(ex.atomicAccess)), key+" is only accessed through sync/atomic")
+	case "immutable":
+		if write {
+			ex.oblige("lock", "immutable write "+key, pos, pc, fresh, key+" is written only before the object is shared")
+		}
+	case "owned_by":
+		if write {
+			ct := ex.ctx.contractFor(ex.root)
+			okRole := false
+			if ct != nil && ct.Role != "" {
+				for _, r := range strings.Split(d.Arg, ",") {
+					if r == ct.Role {
+						okRole = true
+					}
+				}
+			}
+			ex.oblige("lock", "owned_by write "+key, pos, pc, Or(fresh, Bool(okRole)), key+" is written only by the goroutine role(s) "+d.Arg)
+		}
+	case "owned":
+		if write {
+			ct := ex.ctx.contractFor(ex.root)
+			excl := ct != nil && ct.Exclusive
+			ex.oblige("lock", "owned write "+key, pos, pc, Or(fresh, Bool(excl)), key+" has no lock: it may only be written by a function declared `exclusive`")
+		}
 	}
 }
+
 func (ex *Exec) guardedMap(st *State, m ssa.Value, write bool, pc *Term, pos token.Pos) {}
-func (ex *Exec) lockOrder(st *State, p Value, pc *Term, pos token.Pos)                   {}
-func (ex *Exec) onAcquire(fr *Frame, st *State, p Value, pc *Term)                       {}
+
+func mutexKey(p Value) (string, bool) {
+	x, ok := p.(PtrV)
+	if !ok {
+		return "", false
+	}
+	return rootFieldKey(x)
+}
+
+func rankCounter(rank int) string { return fmt.Sprintf("ghost|lockheld.%02d", rank) }
+
+// lockOrder: acquiring a mutex of rank r requires that no mutex of rank >= r is held.
+func (ex *Exec) lockOrder(st *State, p Value, pc *Term, pos token.Pos) {
+	if ex.dry > 0 || !contains(ex.curProps, "C18") {
+		return
+	}
+	key, ok := mutexKey(p)
+	if !ok {
+		return
+	}
+	rank, ok := ex.ctx.lockRank[key]
+	saved := ex.clauseProps
+	ex.clauseProps = []string{"C18"}
+	defer func() { ex.clauseProps = saved }()
+	if !ok {
+		ex.oblige("lock", "order "+key, pos, pc, False, "mutex "+key+" has no declared rank in the lockorder directive")
+		return
+	}
+	ex.checkRankFree(st, key, rank, pc, pos)
+	// the acquisition must be covered by the function's `acquires` declaration
+	if ct := ex.ctx.contractFor(ex.root); ct != nil {
+		ex.oblige("lock", "declared "+key, pos, pc, Bool(contains(ct.Acquires, key)), "the contract's acquires clause lists "+key)
+	}
+	c := st.get(rankCounter(rank), SBV(64))
+	st.set(rankCounter(rank), BVAdd(c, BV(1, 64)))
+}
+
+func (ex *Exec) checkRankFree(st *State, key string, rank int, pc *Term, pos token.Pos) {
+	for other, r2 := range ex.ctx.lockRank {
+		_ = other
+		if r2 < rank {
+			continue
+		}
+	}
+	seen := map[int]bool{}
+	var conds []*Term
+	for _, r2 := range ex.ctx.lockRank {
+		if r2 < rank || seen[r2] {
+			continue
+		}
+		seen[r2] = true
+		conds = append(conds, Eq(st.get(rankCounter(r2), SBV(64)), BV(0, 64)))
+	}
+	ex.oblige("lock", "order "+key, pos, pc, And(conds...), "no mutex of the same or a later rank is held when "+key+" is acquired (lock order)")
+}
+
+func (ex *Exec) lockRelease(st *State, p Value) {
+	key, ok := mutexKey(p)
+	if !ok {
+		return
+	}
+	if rank, ok := ex.ctx.lockRank[key]; ok {
+		c := st.get(rankCounter(rank), SBV(64))
+		st.set(rankCounter(rank), BVSub(c, BV(1, 64)))
+	}
+}
+
+func (ex *Exec) onAcquire(fr *Frame, st *State, p Value, pc *Term) {}
 
 func conjuncts(e ast.Expr) []ast.Expr {
 	switch x := e.(type) {
